@@ -73,37 +73,37 @@ CLAIMED = {
         technique="TLA+ Layout enumeration + PostLex state machine (TLC), replayed on the real parser",
         ref="§2.8, §6 C01"),
     'C10': dict(
-        text="RepList.tla specifies one repeated field and all views onto it with Python list / ordered-dict semantics (PySeq.tla); TLC checks the design invariants and enumerates every call through every view with every index/slice spelling (depth 1) and reduced menus (depth 2-3); each behaviour is replayed on 7 repeated-field families of the real library and every view is compared with the specification after every call.",
+        text="RepList.tla specifies one repeated field and all views onto it with Python list / ordered-dict semantics (PySeq.tla); TLC checks the design invariants and enumerates every call through every view with every index/slice spelling (depth 1) and reduced menus (depth 2-3); each behaviour is replayed on 9 repeated-field families of the real library (load factor rotated) and every view is compared with the specification after every call, including the Python read protocol (len, every index, slices, in, keys/values/items, first-match lookup). RepImpl.tla - the wrappers' token placement and the views' bisect index arithmetic transcribed statement by statement - is checked by TLC against the canonical rendering and the recomputed filters; each repaired deviation is reproduced as a TLC counterexample.",
         note="Exhaustive within the constants in evidence.replist_runs; lists of <= 3 initial items, batches <= 2-3.",
         technique="TLA+ RepList/PySeq (TLC) + behaviour replay on the real views",
         ref="§2.3, §6 C10"),
     'C03': dict(
-        text="The RepList.tla behaviours of C10 replayed on canonical and non-canonical host documents; after every call the printed text is compared with the specification's rendering Doc(raw) (canonical hosts) and the frame conditions are checked on every host: tokens outside the parent identical in identity/order/text, siblings keep their tokens, only item tokens and separator tokens appear or disappear.",
-        note="Covers repeated slots of 7 field families; optional/required slots are covered by the slot check when built (see DESIGN.md).",
+        text="RepList.tla behaviours replayed on canonical and non-canonical host documents of 9 repeated-field families: printed text = the specification's rendering Doc(raw) on canonical hosts; frame conditions on every host (tokens outside the parent identical in identity/order/text, siblings keep their tokens, only item tokens and separator tokens appear or disappear, no token object at two places, the surviving items are exactly the specified ones). Slots.tla (schemas of 34 classes extracted reflectively, 157 slots incl. whole repeated fields) replayed on full, minimal and compact (no blanks) documents: node-level and value-level set / clear / replace / same-value writes with presence, sibling identity and token-level frame checks.",
+        note="Lists of <= 3 initial items, batches <= 2-3, slot histories of depth 1-2.",
         technique="TLA+ RepList rendering + frame conditions, replayed on real documents",
         ref="§2.3, §6 C03"),
     'C06': dict(
-        text="After every call of every RepList.tla behaviour the printed document is re-parsed and compared three ways: content of the re-parsed tree = content of the in-memory tree = the specification's list; every view must show the same in memory and after re-parse.",
+        text="After every step of RepList.tla, Slots.tla, CostSpec.tla, NumExpr.tla (arithmetic inside documents) behaviours and of composed random histories (while no syntax-breaking call was made) the printed document is re-parsed and compared: content of the re-parsed tree = content of the in-memory tree = the specification's state; every view must show the same in memory and after re-parse.",
         note="Syntax-preserving edits only (values from the lexical domain, donors with fitting indent); comment attribution aside.",
         technique="TLA+ RepList behaviours replayed, print/re-parse three-way comparison",
         ref="§6 C06"),
     'C05': dict(
-        text="Tree!WellFormed (transliterated from the TLA+ predicate) is evaluated on the real tree after every call of every RepList.tla behaviour, including edits made through an inserted child (stale token store) and on popped nodes (self-contained).",
-        note="Edit kinds covered so far: all repeated-field operations through every view and edits through children; see DESIGN.md for the remaining kinds.",
+        text="Tree!WellFormed (Tree.tla; the Python transliteration is cross-checked against TLC on sound and deliberately corrupted dumps of real trees in every run) is evaluated on the real tree after every call of: RepList.tla behaviours (all list operations through every view, edits through inserted children, popped nodes self-contained), Slots.tla behaviours (optional / required / repeated slots, attached donors), spacing assignments, comment attribution sequences (every call, hand-back-and-forth), and composed random histories interleaving all edit kinds incl. deep-copy-and-insert.",
+        note="Small documents; composed histories are a seeded random walk (600 / 6000 walks).",
         technique="TLA+ RepList behaviours replayed, WellFormed invariant on the real tree at every step",
         ref="§2.1, §6 C05"),
     'C19': dict(
-        text="RepList.tla generates the refused calls (out-of-range index, missing key, size-mismatched slice, attached donors from the same or another document at every batch position) as stuttering actions; each is replayed on the real code: the exception class must match and text, token identity row, views and tree must be unchanged.",
+        text="Every specification module generates its refused calls as stuttering actions and each is replayed on the real code - the exception class must match and text, token identity row, views and tree must be unchanged: RepList.tla (out-of-range index, missing key, size-mismatched slices, attached donors from the same / another document at every batch position incl. extended slices), Slots.tla (attached donors in every optional / required / repeated slot, incl. nodes whose boundary tokens merely look like their store's), CostSpec.tla (illegal cost combinations), NumExpr.tla (in-place operators with an attached operand), TokenSeqTrace (raw texts the token type cannot represent, directly and after an accepted edit), CommentOwnership (claims of already claimed / absent comments, unsatisfiable selective claim / unclaim requests), spacing token runs that live elsewhere.",
         note="Refusal sites of repeated fields; other sites (raw_text, cost, arithmetic) are added by their own modules.",
         technique="TLA+ refusal-as-stutter actions (TLC) replayed on the real code",
         ref="§6 C19"),
     'C07': dict(
-        text="TLC exhaustively checks an implementation-shaped TLA+ transcription of TokenStore (blocks, stored indices, handles, size caches) against the abstract sequence for every call sequence within small constants; every enumerated behaviour is replayed on the real class and all observations compared after every call; recorded executions of the real class on larger stores are validated by TLC against the abstract trace spec.",
+        text="TLC exhaustively checks BlockStore.tla - an implementation-shaped transcription of TokenStore (blocks with stored indices, handles, size caches) - against the abstract sequence for every call sequence within small constants; every enumerated behaviour is replayed on the real class (block layout compared as drift); recorded executions are validated by TLC against TokenSeqTrace.tla: a randomized store workload, the repository's own 1586 non-benchmark tests run in place under a recorder plugin with the load factor patched to 2-5, and composed model-level histories; the default load factor is exercised on 2.1k-4.5k-token stores.",
         note="Exhaustive within the constants in evidence.design_checks (load factors 2-5, <= 12 live tokens, depth 2-3); larger stores and the default load factor by recorded traces / randomized workload. Trusted: TLC, the Python projection (list(store), getters).",
-        technique="TLA+ BlockStore refinement (TLC) + behaviour replay + TLC trace validation",
+        technique="TLA+ BlockStore refinement (TLC) + behaviour replay + TLC trace validation incl. the repository's own test suite",
         ref="§2.2, §6 C07"),
     'C08': dict(
-        text="Same machinery as C07 with token sizes (newline / column classes) and TokenStore.update as first-class actions: TLC checks the cached block size and last-newline index equal the fold over tokens in every reachable state; behaviours are replayed on the real store comparing get_position/get_index of every token with the (line, column) computed from the concatenated text.",
+        text="Same machinery as C07 with token sizes (newline / column classes) and TokenStore.update as first-class actions: TLC checks the cached block size and last-newline index in every reachable state; behaviours are replayed comparing get_position / get_index of every token with the (line, column) computed from the concatenated text; store traces (workload, repository test suite, composed histories) and document-level assignments (value and raw_text on every token of small documents) are validated by TLC against TokenSeqTrace.tla with positions folded over the ACTUAL texts; the Position monoid laws behind the block caches are proved unboundedly by tlapm.",
         note="Exhaustive within constants (load factors 2-3, <= 7 tokens, 4 size classes, depth 2-3); traces on larger stores. Position oracle is computed from the actual token texts.",
         technique="TLA+ BlockStore size-cache invariants (TLC) + behaviour replay + TLC trace validation (store and document level)",
         ref="§2.2, §6 C08"),
